@@ -1497,6 +1497,11 @@ func (l *ChainedSeqContext3) apply(ctx *Context, a, b int) int {
 	next := p
 
 	glyphsNeeded = len(l.Lookahead)
+	// The loop above does not skip glyphs beyond b, but the lookahead
+	// sequence may extend to the end of the glyph sequence.
+	for p+glyphsNeeded < len(seq) && !keep.Keep(seq[p].GID) {
+		p++
+	}
 	for _, cov := range l.Lookahead {
 		if p+glyphsNeeded-1 >= len(seq) || !cov[seq[p].GID] {
 			ctx.scratch = matchPos // return the scratch space
